@@ -4,7 +4,7 @@ from values import Interner, dtype_wire, err_class
 import vecgen as G
 from vecgen import POOLS, TYPES, BINOPS, UNOPS, SYMBOL, val, vals
 # C05 also runs every operator form over elements whose operators are not commutative (the written operand order shows)
-POOLS = dict(POOLS, nc=G.EXTRA["nc"])
+POOLS = dict(POOLS, nc=G.EXTRA["nc"], tmpl=G.EXTRA["tmpl"], targ=G.EXTRA["targ"])
 TYPES = TYPES + ["nc"]
 
 PID = "C05"
@@ -336,6 +336,27 @@ def gen_random(rng, tier):
                        seqkind=rng.choice(["list", "list", "tuple"]))
 
 
+def gen_templates(rng, tier):
+    """`%` on vectors of printf templates: template i is applied to operand i (a tuple operand is a sequence like a list: one
+    argument per template, never the whole tuple for each; another length is an error), for every operand form"""
+    for n in (1, 2, 3):
+        for px in G.none_patterns(n):
+            for py in G.none_patterns(n):
+                for seqkind in ("tuple", "list"):
+                    yield _bin("mod", "seq", False, "tmpl", "targ", G.fill(rng, "tmpl", px), G.fill(rng, "targ", py), seqkind=seqkind)
+                yield _bin("mod", "vec", False, "tmpl", "targ", G.fill(rng, "tmpl", px), G.fill(rng, "targ", py))
+        for m in (0, 1, 2, 3, 4):
+            if m != n:
+                for seqkind in ("tuple", "list"):
+                    yield _bin("mod", "seq", False, "tmpl", "targ", G.fill(rng, "tmpl", [False] * n), G.fill(rng, "targ", [False] * m), seqkind=seqkind)
+        for si in range(len(POOLS["targ"])):
+            if not isinstance(POOLS["targ"][si], tuple):      # a tuple operand is a sequence, not a scalar
+                yield _bin("mod", "scalar", False, "tmpl", "targ", G.fill(rng, "tmpl", [False] * n), s=si)
+        for yt in ("str", "int"):
+            for seqkind in ("tuple", "list"):
+                yield _bin("mod", "seq", False, "tmpl", yt, G.fill(rng, "tmpl", [False] * n), G.fill(rng, yt, [False] * n), seqkind=seqkind)
+
+
 def gen_long(rng, tier):
     """the same rule at every data size: long operands (a per-value memo, a chunked loop or a size-triggered fast path would
     show here); the float / complex pools hold equal-but-distinguishable twins (0.0 / -0.0) that then occur many times"""
@@ -364,8 +385,8 @@ def gen_long(rng, tier):
 def generate(rng, tier):
     # interleave so that every family is reached early even when the budget is short
     gens = [gen_bin(rng, tier), gen_unary(rng, tier), gen_bcast(rng, tier), gen_table(rng, tier), gen_random(rng, tier),
-            gen_long(rng, tier)]
-    weights = [12, 1, 2, 1, 4, 1]
+            gen_long(rng, tier), gen_templates(rng, tier)]
+    weights = [12, 1, 2, 1, 4, 1, 1]
     alive = list(range(len(gens)))
     while alive:
         for gi in list(alive):
